@@ -69,7 +69,8 @@ theorem slot_out_only_gen (v : SetView) (cur upd : String) (pods : List Pod) (f 
     (hgood : ∀ p ∈ pods, p.healthy = true ∧ p.rev = upd ∧ p.idOk = true ∧ p.stOk = true)
     (hrev : newPodRev v cur upd k = upd) :
     (updateStatefulSet v cur upd pods f).1.acts = [.create k upd] ∧
-    (f.hit 0 k = false → (updateStatefulSet v cur upd pods f).2 = .ok) := by
+    (f.hit 0 k = false → (updateStatefulSet v cur upd pods f).2 = .ok) ∧
+    (f.hit 0 k = true → (updateStatefulSet v cur upd pods f).2 = .err) := by
   have hDes := desired_isDesired r v.slots
   have hndD : (desired r v.slots).Nodup := hDes.sorted.imp (fun h => ne_of_lt h)
   have hnok : ∀ q ∈ pods, q.ord ≠ k := by
